@@ -69,6 +69,14 @@ var propDefs = map[string]*PropDef{
 		},
 		Assume: []string{"loaders are deterministic: Abs and the success of Get are uninterpreted functions of (loader, arguments); what a loader does with '..' is the loader's business", "path algebra (filepath.Join/Dir/IsAbs) is uninterpreted"},
 	},
+	"C13": {
+		ID: "C13", Kinds: []string{"preserved"}, Funcs: "all", Floor: 20,
+		Unmech: []string{
+			"recursion bound: every macro body runs with the context's counter between 1 and maxMacroDepth (proved), the counter is incremented for the duration of the call and restored by every function (proved: preserved field), hence nested macro calls on one context are at most maxMacroDepth deep; the induction hypothesis (counter between 0 and the limit at macro entry) is the stated precondition of the function values called through reflection",
+			"'an imported macro behaves like the local one' follows from the import binding the same node object and both function values calling node.call with the same arguments (proved)",
+		},
+		Assume: []string{"macro function values are invoked through reflect.Value.Call with the arguments written in the template (C08)"},
+	},
 	"C14": {
 		ID: "C14", Kinds: []string{"opaque@exec", "callers"}, Funcs: "all", Floor: 15,
 		Unmech: []string{
